@@ -4,6 +4,7 @@ import (
 	"fmt"
 	"sort"
 	"strings"
+	"sync"
 
 	"ariga.io/atlas/sql/mysql"
 	"ariga.io/atlas/sql/postgres"
@@ -47,6 +48,7 @@ type reuseCase struct {
 	pool     []optSpec
 	calls    [][]int // indexes into pool
 	from, to dSchema
+	light    bool // SchemaDiff only (the tied entry point); otherwise RealmDiff and TableDiff too
 }
 
 var ruN int
@@ -75,7 +77,51 @@ func runReuseCase(w *out.W, c reuseCase) {
 		}
 	}
 	ct.WriteString(" " + c.from.text() + " " + c.to.text())
-	for _, dialect := range []string{"sqlite", "mysql", "postgres"} {
+	// the three dialects have three distinct differ objects: run them side by side, flush in a fixed order
+	dialects := []string{"sqlite", "mysql", "postgres"}
+	recs := make([]*reuseRec, len(dialects))
+	var wg sync.WaitGroup
+	for di, dialect := range dialects {
+		rec := &reuseRec{}
+		recs[di] = rec
+		wg.Add(1)
+		go func(dialect string, rec *reuseRec) {
+			defer wg.Done()
+			runReuseDialect(c, dialect, rec)
+		}(dialect, rec)
+	}
+	wg.Wait()
+	for di, dialect := range dialects {
+		rec := recs[di]
+		for _, k := range rec.counts {
+			w.Count(k)
+		}
+		for _, k := range rec.nontrivs {
+			w.NonTrivial(k)
+		}
+		for _, v := range rec.viols {
+			w.Violation(id, v[0], v[1])
+		}
+		if dialect == "sqlite" {
+			w.Case(id, ct.String(), []string{rec.obs})
+		} else {
+			w.ImplOnly(id+"/"+dialect, rec.obs)
+		}
+	}
+}
+
+type reuseRec struct {
+	counts, nontrivs []string
+	viols            [][2]string
+	obs              string
+}
+
+func (r *reuseRec) count(k string)         { r.counts = append(r.counts, k) }
+func (r *reuseRec) nontriv(k string)       { r.nontrivs = append(r.nontrivs, k) }
+func (r *reuseRec) viol(class, msg string) { r.viols = append(r.viols, [2]string{class, msg}) }
+
+func runReuseDialect(c reuseCase, dialect string, rec *reuseRec) {
+	{
 		d := differOf(dialect)
 		// ---- the caller's long-lived values
 		var (
@@ -144,6 +190,9 @@ func runReuseCase(w *out.W, c reuseCase) {
 			}},
 		}
 		var obs []string
+		if c.light {
+			entries = entries[:1]
+		}
 		for _, e := range entries {
 			// (a) the unfiltered change set BEFORE the sequence (options: normalized only)
 			pre, preC := e.run([]schema.DiffOption{schema.DiffNormalized()})
@@ -159,11 +208,11 @@ func runReuseCase(w *out.W, c reuseCase) {
 					callOpts = append(callOpts, vals[i])
 				}
 				got[n], gotC[n] = e.run(callOpts)
-				w.Count(dialect + ":" + e.name)
+				rec.count(dialect + ":" + e.name)
 			}
 			// (c) the unfiltered change set AFTER the sequence: nothing of the options may have stayed behind in the differ
 			if post, _ := e.run([]schema.DiffOption{schema.DiffNormalized()}); post != pre {
-				w.Violation(id, "reuse-state-leaks", fmt.Sprintf("%s [%s]: a diff without skip options gives %s after the sequence %v of diffs with options %v; before the sequence it gave %s",
+				rec.viol("reuse-state-leaks", fmt.Sprintf("%s [%s]: a diff without skip options gives %s after the sequence %v of diffs with options %v; before the sequence it gave %s",
 					dialect, e.name, post, c.calls, c.pool, pre))
 			}
 			if e.name == "SchemaDiff" {
@@ -183,23 +232,23 @@ func runReuseCase(w *out.W, c reuseCase) {
 				sort.Strings(names)
 				where := fmt.Sprintf("%s [%s]: call %d of %d (options %s; all calls %v)", dialect, e.name, n+1, len(c.calls), showCall(c, call), c.calls)
 				if want, _ := e.run(fresh(call)); got[n] != want {
-					w.Violation(id, "reuse-differs-from-fresh", fmt.Sprintf("%s: reused option values give %s, freshly made options with the same kinds %v give %s", where, got[n], names, want))
+					rec.viol("reuse-differs-from-fresh", fmt.Sprintf("%s: reused option values give %s, freshly made options with the same kinds %v give %s", where, got[n], names, want))
 				}
 				if got[n] == "err" || pre == "err" {
 					if (got[n] == "err") != (pre == "err") {
-						w.Violation(id, "skip-error-differs", where+": error with skip options only or without only")
+						rec.viol("skip-error-differs", where+": error with skip options only or without only")
 					}
 					continue
 				}
 				if t, ok := occursKind(gotC[n], K); ok {
-					w.Violation(id, "skip-kind-present", fmt.Sprintf("%s: skipped kinds %v but the change set holds %s: %s", where, names, t, got[n]))
+					rec.viol("skip-kind-present", fmt.Sprintf("%s: skipped kinds %v but the change set holds %s: %s", where, names, t, got[n]))
 				}
 				if ref := showC(refRemove(preC, K)); ref != got[n] {
-					w.Violation(id, "skip-not-exact", fmt.Sprintf("%s: skip %v: got %s, unfiltered minus skipped kinds is %s", where, names, got[n], ref))
+					rec.viol("skip-not-exact", fmt.Sprintf("%s: skip %v: got %s, unfiltered minus skipped kinds is %s", where, names, got[n], ref))
 				}
 				if e.name == "SchemaDiff" && got[n] != pre {
-					w.Count(dialect + ":filtered")
-					w.NonTrivial(dialect + pre + strings.Join(names, ","))
+					rec.count(dialect + ":filtered")
+					rec.nontriv(dialect + pre + strings.Join(names, ","))
 				}
 			}
 		}
@@ -210,17 +259,13 @@ func runReuseCase(w *out.W, c reuseCase) {
 			now := kept[i][:cap(kept[i])]
 			for j := range now {
 				if now[j] != keptWas[i][j] {
-					w.Violation(id, "reuse-option-slice-rewritten", fmt.Sprintf("%s: the slice given to DiffSkipChanges(%v...) was rewritten at position %d of its backing array (length %d) by the diffs %v",
+					rec.viol("reuse-option-slice-rewritten", fmt.Sprintf("%s: the slice given to DiffSkipChanges(%v...) was rewritten at position %d of its backing array (length %d) by the diffs %v",
 						dialect, c.pool[i].kinds, j, len(c.pool[i].kinds), c.calls))
 					break
 				}
 			}
 		}
-		if dialect == "sqlite" {
-			w.Case(id, ct.String(), []string{strings.Join(obs, " || ")})
-		} else {
-			w.ImplOnly(id+"/"+dialect, strings.Join(obs, " || "))
-		}
+		rec.obs = strings.Join(obs, " || ")
 	}
 }
 
@@ -292,12 +337,15 @@ func runReuse(w *out.W, tier string) {
 		nSets = len(sets)
 		// single values
 		for _, a := range sets {
-			runReuseCase(w, reuseCase{[]optSpec{N, S(a...)}, [][]int{{0, 1}, {0}, {0, 1}, {1, 0, 1}, {0}, {1, 1, 0}}, pr[0], pr[1]})
+			runReuseCase(w, reuseCase{[]optSpec{N, S(a...)}, [][]int{{0, 1}, {0}, {0, 1}, {1, 0, 1}, {0}, {1, 1, 0}}, pr[0], pr[1], false})
 		}
 		// all ordered pairs: overlapping (a shares a kind with b), disjoint, equal
-		for _, a := range sets {
-			for _, b := range sets {
-				runReuseCase(w, reuseCase{[]optSpec{N, S(a...), S(b...)}, reuseSeq, pr[0], pr[1]})
+		for i, a := range sets {
+			for j, b := range sets {
+				// all three entry points for equal and neighbouring values (and for every single value above and every
+				// random case below); SchemaDiff, the tied one, for every ordered pair
+				near := i-j <= 1 && j-i <= 1
+				runReuseCase(w, reuseCase{[]optSpec{N, S(a...), S(b...)}, reuseSeq, pr[0], pr[1], !near})
 			}
 		}
 	}
@@ -339,6 +387,6 @@ func runReuse(w *out.W, tier string) {
 			}
 			calls = append(calls, call)
 		}
-		runReuseCase(w, reuseCase{pool, calls, from, to})
+		runReuseCase(w, reuseCase{pool, calls, from, to, false})
 	}
 }
